@@ -44,6 +44,10 @@ def units(tier, variant):
     for w in ws:
         for s in range(len(w)):
             out.append(dict(kind='word', word=list(w), stop=s, variant=variant))
+    # stop just inside / beyond the back focal plane of a positive front group: the entrance pupil is virtual and far away, on
+    # either side (in front of the launch plane when the stop is beyond the focal plane)
+    for gap in (0.8, 0.95, 1.05, 1.3, 2.0):
+        out.append(dict(kind='word', word=[0, 1, 5], stop=2, variant=variant, gap_factor=gap))
     out.append(dict(kind='distributions', variant=variant))
     out.append(dict(kind='vignetting', variant=variant))
     return out
@@ -174,6 +178,14 @@ def run_word(part, unit):
     A = c04.alphabet(v)[:6]
     surfs = LZ.with_stop(LZ.fix_thickness_signs([A[i] for i in unit['word']]), unit['stop'])
     det0 = dict(word=unit['word'], stop=unit['stop'], variant=v)
+    if unit.get('gap_factor'):
+        # distance from the rear vertex of the front group to its back focal point (reference model), times the factor
+        sp_f = LZ.spec(surfs[:2], obj=LZ.INF)
+        rows_f = prescription.rows(sp_f, lambda m, prev: LZ.ref_index(m, 0.5876, prev))
+        ys_, us_ = abcd.trace(rows_f, 1.0, 0.0, -1.0, 1, 2)
+        bfd = -ys_[-1] / us_[-1]
+        surfs[1]['t'] = unit['gap_factor'] * bfd
+        det0['gap_factor'] = unit['gap_factor']
     Px, Py = LZ.fan25()
     for (obj, ap, ft, tele) in all_configs(p):
         mf = p['ang'] if ft == 'angle' else p['h']
